@@ -80,6 +80,22 @@ CHECKS = [
          text="PARTIAL. Coq theorems (Cli.v): for every interleaving of the per-file appends the printed results are, as a multiset, the union of the library's per-file results filtered by -headers, and the exit status is 0 iff that union is non-empty; readFileLines model with/without the scanner limit (refutation of the limit). The real binary built from the tree is run on generated directory trees x flags x -tasks and compared with in-process Match results (stdout, JSON incl. Text, exit status).",
          note='partial: process plumbing, flag parsing, logging, JSON encoding, the 24h timeout and real goroutine scheduling are not modelled; order among equal sort keys is not claimed.',
          technique=T_CORR),
+    dict(id='C09',
+         text='PARTIAL. Coq theorems (InterleaveProof.v): threads that only read shared locations and write private ones never conflict, leave shared state untouched under every schedule and each ends with its sequential result. That the Go code has this footprint is observed: a -race build of the harness runs 2/16/64 goroutines of Match/MatchFrom on one (cold and warm) classifier over fuzzy-path inputs and compares every result with the sequential one; race reports are the replay.',
+         note='partial: memory-model facts (slices sharing backing arrays, go-diff internals) cannot be exhibited by a Gallina model; the race detector samples interleavings.',
+         technique=T_CORR),
+    dict(id='C14',
+         text='PARTIAL, as C09, for stringclassifier.Classifier: interleaving theorems plus a model-level refutation of the unlocked lazy initialisation the code had; -race harness mixing MultipleMatch, NearestMatch and AddValue (fresh and duplicate keys) on classifiers with lazy and with precomputed search sets, results compared with sequential ones.',
+         note='partial: see C09. licenseclassifier.License wraps the same classifier and is covered through it.',
+         technique=T_CORR),
+    dict(id='C15',
+         text='PARTIAL. Coq theorem (Archive.v): for abstract codecs with decode(encode x) = x, reading the written archive yields exactly the (base name without .txt, normalised text, search set) triples of a directly built classifier, for every list of files. Oracle: real ArchiveLicenses/New(ArchiveBytes) on random subsets and orders of the 178 files plus synthetic (large, oddly named, non-.txt, with directories), keys and NearestMatch/MultipleMatch compared with a directly built classifier.',
+         note='partial: tar, gzip, gob trusted; equality of answers follows from equal state and is checked by the oracle.',
+         technique=T_CORR),
+    dict(id='C16',
+         text='PARTIAL. Coq theorems (License1.v, License1Proof.v): MultipleMatch keeps exactly the matches passing WithinConfidenceThreshold, and (binary64, via Flocq) that test is equivalent to threshold <= confidence. The corpus part - every shipped license text, upper-cased, re-flowed, //, #, *, box- and javadoc-decorated, is identified by NearestMatch at >= 0.8 - is a finite fact about data and the regexp normaliser, established by executing the real code (sample in quick, all 178 in thorough); fine damage sweep around the threshold for MultipleMatch.',
+         note='partial: normaliser pipeline is an oracle; variants are a sample.',
+         technique=T_CORR),
 ]
 _PENDING = "check under construction in this round (model/proof not yet committed); not claimed until it is"
-NOT_APPLICABLE = [dict(property_id='C%02d' % i, reason=_PENDING) for i in range(1, 20) if i not in (1,2,3,4,5,6,7,8,10,11,12,13,17,18,19)]
+NOT_APPLICABLE = [dict(property_id='C%02d' % i, reason=_PENDING) for i in range(1, 20) if i not in range(1, 21)]
